@@ -346,6 +346,7 @@ RULE = (
     "simplices of unequal volume (and interior points), a tested volume fraction, an l1 slice or a gamut sample checked by LP."
     " Clouds carry an absolute size factor in {1e-6,1e-4,1e-2,1,1e3}."
     " Estimator level: l1 down to 0.3 % of the range of totals; with the default engine 400 further samples must reach the corner region (relative depth 0.067^(1/k)) of every receptor axis' LP extent (miss probability < 1e-12)."
+    " Function level: the cloud snapped to a 0..9 lattice is sampled as int64 array / list of ints and as floats: equal samples."
 )
 
 PROP = Prop(
